@@ -54,8 +54,10 @@ class Hang(Exception):
 
 
 class time_limit:
-    """`with time_limit(10): impl_call()` raises Hang when the call does not return in time
-    (main thread of the process only; based on ITIMER_REAL, so it interrupts pure-Python loops)."""
+    """`with time_limit(10): impl_call()` raises Hang when the call has not returned after that many seconds of
+    CPU time of this process (ITIMER_PROF: independent of the load of the machine -- a wall-clock limit let a
+    descheduled 0.1 s call look like a hang on a busy machine; main thread only; interrupts pure-Python loops.
+    A call that blocks without using CPU is left to the whole-run watchdog of ./check)."""
 
     def __init__(self, seconds):
         self.seconds = seconds
@@ -68,15 +70,15 @@ class time_limit:
         import threading
         self.active = threading.current_thread() is threading.main_thread()
         if self.active:
-            self.old = signal.signal(signal.SIGALRM, self._fire)
-            signal.setitimer(signal.ITIMER_REAL, self.seconds)
+            self.old = signal.signal(signal.SIGPROF, self._fire)
+            signal.setitimer(signal.ITIMER_PROF, self.seconds)
         return self
 
     def __exit__(self, *a):
         if self.active:
             import signal
-            signal.setitimer(signal.ITIMER_REAL, 0)
-            signal.signal(signal.SIGALRM, self.old)
+            signal.setitimer(signal.ITIMER_PROF, 0)
+            signal.signal(signal.SIGPROF, self.old)
         return False
 
 
